@@ -121,7 +121,7 @@ def _job_a(arg):
     bad = []
     for x in v[2]:
         r = byid[int(x[0])]
-        bad.append((str(x[1]), tags(r, str(x[3]), _fmt(x[2])), _fmt(x[2]), {"kind": "exec", "bytes": r["b"][: r["n"]], "seed": r["seed"], "variant": r["variant"]},
+        bad.append((str(x[1]), tags(r, "+".join(str(t) for t in x[3]), _fmt(x[2])), _fmt(x[2]), {"kind": "exec", "bytes": r["b"][: r["n"]], "seed": r["seed"], "variant": r["variant"]},
                     r["post"], r["errtext"]))
     skipped: Dict[str, int] = {}
     for x in v[3]:
